@@ -74,7 +74,7 @@ func cmdAPICases(args []string) {
 					}()
 					select {
 					case <-done:
-					case <-time.After(3 * time.Second):
+					case <-time.After(20 * time.Second):
 						hung = true
 						panic("Run() did not return")
 					}
